@@ -34,7 +34,7 @@ def run(ctx):
     os_env = {"VERIF_REPRO_RERUNS": "3" if ctx.quick else "5"}
     import os
     os.environ.update(os_env)
-    ctx.tlc("MC_Syntax", "MC_Syntax_sim", replay="repro", simulate={"num": n, "depth": 500, "procs": 6 if ctx.quick else 12, "seed_offset": 80},
+    ctx.tlc("MC_Syntax", "MC_Syntax_sim", replay="repro", simulate={"num": n, "depth": 500, "procs": 12, "seed_offset": 80},
             label="MC_Syntax_sim", timeout=7200)
     trace = ctx.collect_events("repro")
     ctx.validate_events("Trace_Repro", trace)
